@@ -418,6 +418,8 @@ def _ev(e, env, loc):
                     '>>': lambda: a >> b, '<<': lambda: a << b}[op]()
         except Exception:
             return UNK
+    if k == 'c':
+        return env.get('call:' + (callee_name(e) or ''), UNK)
     if k == 'q':
         c = _ev(e[1], env, loc)
         if c is UNK:
